@@ -3,6 +3,9 @@ package main
 // Engine: program loading, per-program caches, verification units.
 
 import (
+	"path/filepath"
+	"encoding/json"
+	"sync"
 	"fmt"
 	"go/types"
 	"os"
@@ -15,6 +18,9 @@ import (
 )
 
 type Engine struct {
+	hints          map[string][]string // loop key -> candidate ids confirmed by an earlier run (accelerator)
+	newHints       map[string][]string
+	hintsMu        sync.Mutex
 	prog           *ssa.Program
 	pkgs           []*packages.Package
 	spkgs          []*ssa.Package
@@ -228,4 +234,29 @@ func (eng *Engine) nonNilGlobal(g *ssa.Global) bool {
 
 func (eng *Engine) isModulePkg(p *ssa.Package) bool {
 	return p != nil && strings.HasPrefix(p.Pkg.Path(), eng.modulePath)
+}
+
+// loadHints reads the Houdini hints file (missing file: no hints).
+func (eng *Engine) loadHints(path string) {
+	eng.hints = map[string][]string{}
+	eng.newHints = map[string][]string{}
+	data, err := os.ReadFile(path)
+	if err != nil {
+		return
+	}
+	json.Unmarshal(data, &eng.hints)
+}
+
+// saveHints merges the sets confirmed in this run into the hints file.
+func (eng *Engine) saveHints(path string) error {
+	out := map[string][]string{}
+	if data, err := os.ReadFile(path); err == nil {
+		json.Unmarshal(data, &out)
+	}
+	for k, v := range eng.newHints {
+		out[k] = v
+	}
+	data, _ := json.MarshalIndent(out, "", " ")
+	os.MkdirAll(filepath.Dir(path), 0o755)
+	return os.WriteFile(path, data, 0o644)
 }
